@@ -59,7 +59,7 @@ func (p propSpec) allowUnsupported(h string) bool {
 var properties = map[string]propSpec{
 	"C01": {
 		Bounds: [2]map[string]any{
-			{"rows": "0..3 (comparison), 0..2 (boolean shapes, IN, BETWEEN, strings), 0..1 (LIKE)", "constants": "any finite non-negative float64 literal / any string ≤2 bytes", "cells": "any non-NaN float64; any byte string ≤2 (≤3 for LIKE subjects over a pattern-derived alphabet)", "predicates": "6 comparison operators × both orientations, negative and computed comparands; 6 boolean shapes × 36 operator pairs; [NOT] IN lists of 1..3 and IN over a root subquery of 0..2 rows; [NOT] BETWEEN (numbers, strings); 30 LIKE patterns × [NOT] plus every LIKE pattern ≤3 bytes over {a b % _ .} against every subject ≤2 bytes over {a b A .}; 6 IS forms; 9 spellings of one constant under every operator, IN, NOT IN, BETWEEN; tables given as []any, []Map, []map[string]any; grammar-generated predicates: one or two atoms (comparison, [NOT] IN, [NOT] BETWEEN, IS [NOT] NULL) under NOT / AND / OR on 0..1 rows with a nullable column"},
+			{"rows": "0..3 (comparison), 0..2 (boolean shapes, IN, BETWEEN, strings), 0..1 (LIKE)", "constants": "any finite non-negative float64 literal / any string ≤2 bytes", "cells": "any non-NaN float64; any byte string ≤2 (≤3 for LIKE subjects over a pattern-derived alphabet)", "predicates": "6 comparison operators × both orientations, negative and computed comparands; 6 boolean shapes × 36 operator pairs; [NOT] IN lists of 1..3 and IN over a root subquery of 0..2 rows; [NOT] BETWEEN (numbers, strings); 30 LIKE patterns × [NOT] plus every LIKE pattern ≤3 bytes over {a b % _ .} against every subject ≤2 bytes over {a b A .}; 6 IS forms; a numeric and a string literal of one spelling in one predicate (6 spellings × 4 forms); 9 spellings of one constant under every operator, IN, NOT IN, BETWEEN; tables given as []any, []Map, []map[string]any; grammar-generated predicates: one or two atoms (comparison, [NOT] IN, [NOT] BETWEEN, IS [NOT] NULL) under NOT / AND / OR on 0..1 rows with a nullable column"},
 			{"rows": "one more row in every harness", "constants": "same", "cells": "same", "predicates": "same; grammar: 0..2 rows, and three-atom predicates (p con q) con r on 0..1 rows"},
 		},
 		Outside: []string{"predicates outside the template list (depth > 3)", "LIKE patterns outside the 30 listed", "negative literals (the parser turns them into unary minus; covered under C02)", "NaN cells", "mixed-kind columns", "IN over a subquery (covered under C07)"},
@@ -73,21 +73,21 @@ var properties = map[string]propSpec{
 	},
 	"C03": {
 		Bounds: [2]map[string]any{
-			{"rows": "0..3 (0..2 with two grouping columns / NULLs)", "cells": "any non-NaN float64, optional NULL values", "queries": "GROUP BY 1-2 columns with COUNT(*) COUNT(col) SUM MIN MAX AVG, WHERE, HAVING on COUNT/SUM/MIN, ORDER BY over groups; whole-table aggregates with/without WHERE; same function on two columns; NULL and missing cells in one- and two-column grouping keys", "map iteration": "every order at ExecGroupBy's map ranges"},
+			{"rows": "0..3 (0..2 with two grouping columns / NULLs)", "cells": "any non-NaN float64, optional NULL values", "queries": "GROUP BY 1-2 columns with COUNT(*) COUNT(col) SUM MIN MAX AVG, WHERE, HAVING on COUNT/SUM/MIN, ORDER BY over groups; whole-table aggregates with/without WHERE; same function on two columns; NULL and missing cells in one- and two-column grouping keys; aggregates over the grouping column; mixed-case column names", "map iteration": "every order at ExecGroupBy's map ranges"},
 			{"rows": "0..4 (0..3)", "cells": "same", "queries": "same", "map iteration": "same"},
 		},
 		Outside: []string{"aggregates over strings", "NaN group keys", "SUM's ParseFloat(Sprintf(x)) round trip is an axiom (shortest-representation guarantee)"},
 	},
 	"C04": {
 		Bounds: [2]map[string]any{
-			{"sides": "|l| 0..2, |r| 0..2 (two-column conditions: ≤3 rows in total); PARALLEL: ≤3 rows in total", "keys": "any non-NaN float64 except -0 (opaque key text), or strings ≤1 byte over {a,b} for the single-column conditions", "joins": "JOIN/LEFT/RIGHT × plain/HASH_JOIN/STRAIGHT_JOIN(inner) × 9 ON conditions (=, flipped, two-column in both orders, <, !=, OR, mixed, >=); two-column joins on the integer keys {1,2,3,12,23} whose texts can be confused; mixed-kind keys (1, '1', 2, '2', '1.0', true, 'true') on 2×2 rows under = and <; 5 alias pairs (prefixes of one another, multi-letter) × 3 ON orientations on 0..2 × 0..2 rows", "schedules": "PARALLEL variants: every schedule with ≤1 preemption at synchronisation granularity, race monitor on", "map iteration": "every order at the join loops"},
+			{"sides": "|l| 0..2, |r| 0..2 (two-column conditions: ≤3 rows in total); PARALLEL: ≤3 rows in total", "keys": "any non-NaN float64 except -0 (opaque key text), or strings ≤1 byte over {a,b} for the single-column conditions", "joins": "JOIN/LEFT/RIGHT × plain/HASH_JOIN/STRAIGHT_JOIN(inner) × 9 ON conditions (=, flipped, two-column in both orders, <, !=, OR, mixed, >=); two-column joins on the integer keys {1,2,3,12,23} whose texts can be confused; mixed-kind keys (1, '1', 2, '2', '1.0', true, 'true') on 2×2 rows under = and <; key columns differing only in letter case; 5 alias pairs (prefixes of one another, multi-letter) × 3 ON orientations on 0..2 × 0..2 rows", "schedules": "PARALLEL variants: every schedule with ≤1 preemption at synchronisation granularity, race monitor on", "map iteration": "every order at the join loops"},
 			{"sides": "|l| 0..3, |r| 0..2; PARALLEL ≤4 rows in total", "keys": "same", "joins": "same", "schedules": "≤2 preemptions", "map iteration": "same"},
 		},
 		Outside: []string{"INTO grouping joins", "more than two tables", "NaN keys", "SHA-256 collision freedom and injectivity of base64 are assumed for the hash keys"},
 	},
 	"C05": {
 		Bounds: [2]map[string]any{
-			{"rows": "0..3", "limit,offset": "any int in [0,2^63)", "sort keys": "1-2 numeric keys × ASC/DESC/default, one string key ≤2 bytes, nullable numeric key; renamed, computed and shadowing aliases as sort keys (with a window)", "literal spellings": "LIMIT/OFFSET with leading zeros in both spellings on 12..13 rows", "pipeline": "[WHERE] × {plain, DISTINCT, GROUP BY, GROUP BY + HAVING} × [ORDER BY first or second output column ASC/DESC] × [LIMIT 0..3 OFFSET 0..3] on 0..2 rows against a reference evaluator of the whole pipeline"},
+			{"rows": "0..3", "limit,offset": "any int in [0,2^63)", "sort keys": "1-2 numeric keys × ASC/DESC/default, one string key ≤2 bytes, nullable numeric key; renamed, computed and shadowing aliases as sort keys (with a window)", "integer keys": "int64/int/uint64 sort keys at 2^53 and MaxInt64-3 in four input orders", "literal spellings": "LIMIT/OFFSET with leading zeros in both spellings on 12..13 rows", "pipeline": "[WHERE] × {plain, DISTINCT, GROUP BY, GROUP BY + HAVING} × [ORDER BY first or second output column ASC/DESC] × [LIMIT 0..3 OFFSET 0..3] on 0..2 rows against a reference evaluator of the whole pipeline"},
 			{"rows": "0..4", "limit,offset": "same", "sort keys": "same"},
 		},
 		Outside: []string{"sort inputs above 12 elements (pdqsort paths; insertionSortLessFunc is what runs below)", "NaN sort keys"},
